@@ -43,6 +43,8 @@ inductive Expr where
   | try_ (path : Array Nat) (e : Expr)
   | eq (neg : Bool) (a b : Expr)
   | len (e : Expr)
+  /-- `list.get(i)`: `Some(copy of the element)` or `None` -/
+  | get (i : Nat) (l : Expr)
   deriving Inhabited
 
 mutual
@@ -162,6 +164,12 @@ partial def eval : Expr → M Val
     match ← eval e with
     | .list h => pure (.int (← get).heap[h]!.size)
     | _ => do stuck "len of a non-list"; pure .unit
+  | .get i l => do
+    match ← eval l with
+    | .list h =>
+      let xs := (← get).heap[h]!
+      if i < xs.size then pure (.enm 0 #[xs[i]!]) else pure (.enm 1 #[])
+    | _ => do stuck "get on a non-list"; pure .unit
 
 mutual
 partial def exec : Stmt → M Unit
@@ -304,6 +312,9 @@ partial def pExpr : P Expr := do
     let b ← pExpr
     pure (.eq (neg == 1) a b)
   | "Z" => pure (.len (← pExpr))
+  | "G" => do
+    let i ← nat
+    pure (.get i (← pExpr))
   | _ => failure
 
 mutual
